@@ -7,9 +7,10 @@ import (
 	"math/big"
 	"os"
 	"strings"
+	"time"
 
-	"github.com/consensys/gnark/constraint"
 	"github.com/consensys/gnark/backend/witness"
+	"github.com/consensys/gnark/constraint"
 	"github.com/consensys/gnark/constraint/solver"
 	"github.com/consensys/gnark/frontend"
 	"github.com/consensys/gnark/frontend/cs/r1cs"
@@ -18,9 +19,10 @@ import (
 	"github.com/consensys/gnark/std/rangecheck"
 	"github.com/wormhole-foundation/example-near-light-client/fri"
 	gl "github.com/wormhole-foundation/example-near-light-client/goldilocks"
-	"github.com/wormhole-foundation/example-near-light-client/types"
 	"github.com/wormhole-foundation/example-near-light-client/poseidon"
+	"github.com/wormhole-foundation/example-near-light-client/types"
 
+	"verif/engine/smt"
 	"verif/engine/sym"
 )
 
@@ -321,8 +323,38 @@ func replayFile(path, repo string) int {
 			return f(doc.Property, path, doc.Replay, repo)
 		}
 	}
-	fmt.Println("replay: unknown kind", kind.Kind)
-	return 2
+	// every other kind (functional, merkle, vc, ...) is re-derived: the property's check is run again on
+	// the current tree, restricted to the recorded case when there is one; evidence and replays of this
+	// re-run go to a scratch directory so that the committed evidence is not touched
+	var rc struct {
+		Case string `json:"case"`
+	}
+	json.Unmarshal(doc.Replay, &rc)
+	d, ok := drivers[doc.Property]
+	if !ok {
+		fmt.Println("replay: unknown kind", kind.Kind)
+		return 2
+	}
+	if rc.Case != "" {
+		// case names are recorded abbreviated in some messages: use the part before an ellipsis
+		c := rc.Case
+		if i := strings.Index(c, "…"); i > 0 {
+			c = c[:i]
+		}
+		os.Setenv("VERIF_ONLY", c)
+	}
+	tmp, _ := os.MkdirTemp("", "vreplay")
+	defer os.RemoveAll(tmp)
+	os.Setenv("VERIF_OUT", tmp)
+	fmt.Printf("replay %s: kind %q is replayed by re-running the check (case %q) on the current tree\n", doc.Property, kind.Kind, rc.Case)
+	r := &Run{ID: doc.Property, Tier: "quick", Seed: 1, Scratch: tmp, Repo: repo, Verif: "/verif", t0: time.Now(), pool: smt.NewPool(14), Bounds: map[string]any{}, Extra: map[string]any{}}
+	defer r.pool.Close()
+	d(r)
+	code := r.Finish()
+	if code == 0 {
+		fmt.Println("not reproduced on the current tree")
+	}
+	return code
 }
 
 var replayKinds = map[string]func(prop, path string, raw json.RawMessage, repo string) int{}
